@@ -5,7 +5,7 @@
    Property theorems only: each is closed by [exact] of a lemma of
    Proofs.DomProofs, followed by Print Assumptions. *)
 From stdpp Require Import list.
-Require Import Model.Dom Spec.DomSpec Proofs.DomProofs Proofs.DomOracle.
+Require Import Model.Dom Spec.DomSpec Spec.DomFast Proofs.DomProofs Proofs.DomOracle Proofs.DomFastProofs.
 
 (* the `while !done` loop ends within |g|^2 + 1 passes *)
 Theorem C15_dom_fuel_suffices : forall g,
@@ -76,6 +76,48 @@ Theorem C15_rooted_b_sound : forall g, rooted_b g = true -> rooted g.
 Proof. exact rooted_b_sound. Qed.
 Print Assumptions C15_rooted_b_sound.
 
+(* [third audit] ... and it drops no graph of the property's domain: the
+   exhaustive sweep, which lists the graphs [rooted_b] accepts, covers every
+   rooted digraph of its size *)
+Theorem C15_rooted_b_complete : forall g, rooted g -> rooted_b g = true.
+Proof. exact rooted_b_complete. Qed.
+Print Assumptions C15_rooted_b_complete.
+
+(* [third audit] the hypothesis [rooted g] as the check evaluates it on every
+   explored graph outside the sweep (bit-mask reachability, affordable on
+   graphs with hundreds of nodes) is exactly [rooted g] *)
+Theorem C15_rooted_fast_b_exact : forall g, rooted_fast_b g = true <-> rooted g.
+Proof. exact rooted_fast_b_iff. Qed.
+Print Assumptions C15_rooted_fast_b_exact.
+
+(* [third audit] the children sets hold block indices only (no hypothesis on
+   the graph: whenever the mirror returns) ... *)
+Theorem C15_children_in_range : forall g ord t j cj i,
+  dominator_tree (dom_fuel g) ord g = Ok t ->
+  dt_children t !! j = Some cj -> mem i cj = true -> i < length g.
+Proof. exact children_in_range. Qed.
+Print Assumptions C15_children_in_range.
+
+(* ... so the children invert the immediate dominators for EVERY member, not
+   only for members below the node count as in
+   C15_dom_tree_children_invert_idom ... *)
+Theorem C15_dom_tree_children_invert_idom_all : forall g ord t j cj i,
+  rooted g -> order_ok ord -> dominator_tree (dom_fuel g) ord g = Ok t ->
+  dt_children t !! j = Some cj ->
+  (mem i cj = true <-> dt_idom t !! i = Some (Some j)).
+Proof. exact children_invert_idom_all. Qed.
+Print Assumptions C15_dom_tree_children_invert_idom_all.
+
+(* ... and the children sets partition the nodes other than the entry (what
+   the pre-order walk of into_ssa relies on to visit every block once) *)
+Theorem C15_children_partition : forall g ord t i,
+  rooted g -> order_ok ord -> dominator_tree (dom_fuel g) ord g = Ok t ->
+  0 < i < length g ->
+  exists j cj, dt_children t !! j = Some cj /\ mem i cj = true /\
+    forall j' cj', dt_children t !! j' = Some cj' -> mem i cj' = true -> j' = j.
+Proof. exact children_partition. Qed.
+Print Assumptions C15_children_partition.
+
 (* the executable oracle of the violation search (dominance by deleting a node
    and testing reachability) decides the path definition ... *)
 Theorem C15_dom_by_deletion_correct : forall g i j,
@@ -107,5 +149,9 @@ Example C15_mirror_runs :
   let es := [(0,1);(0,2);(1,3);(2,3);(3,1);(3,4);(4,4);(1,2);(2,1)] in
   run_mirror rev_order 5 es = Ok (spec_view (mk_graph 5 es)).
 Proof. vm_compute. reflexivity. Qed.
+Example C15_rooted_fast_example :
+  rooted_fast_b (mk_graph 5 [(0,1);(0,2);(1,3);(2,3);(3,1);(3,4);(4,4);(1,2);(2,1)]) = true /\
+  rooted_fast_b (mk_graph 4 [(1,2);(2,3);(3,1)]) = false.
+Proof. vm_compute. split; reflexivity. Qed.
 Example C15_orders_ok : order_ok id_order /\ order_ok rev_order /\ order_ok rot_order.
 Proof. exact orders_ok. Qed.
